@@ -4,7 +4,7 @@
    last measurement and the client keeps inflating it), and daemon restarts (every record in the
    segment was produced by some incarnation from its own history h; a fresh incarnation publishes
    Unknown until it has a measurement, C09). *)
-From Coq Require Import ZArith Reals List.
+From Coq Require Import ZArith Reals List Lia.
 From Flocq Require Import Core.
 From CB Require Import Mach MachProofs F64 F64Proofs ChronyFloat ChronyFloatProofs Client ClientProofs
                        Bound BoundProofs Updater UpdaterProofs Containment.
@@ -37,4 +37,16 @@ Proof.
   intros drift h real mono el lt st HL HR Hr Hm HC.
   rewrite (status_is_decay _ real mono el lt st HR Hr Hm HC).
   apply decay_unknown. left. apply spec_status_before_first_sync, HL.
+Qed.
+
+(* a client that has attached to a segment but never obtained a record (e.g. it attached while an
+   update abandoned by a dead daemon was in flight) evaluates the all-zero record: never trusted *)
+Theorem C01_empty_record_no_trust : forall real mono el lt st,
+  ts_inR real -> ts_inR mono ->
+  compute_bound_at (mkceb (mkts 0 0) (mkts 0 0) 0 0 0 Unknown) real mono = Ok (el, lt, st) -> st = Unknown.
+Proof.
+  intros real mono el lt st Hr Hm HC.
+  assert (HR : ceb_inR (mkceb (mkts 0 0) (mkts 0 0) 0 0 0 Unknown)).
+  { unfold ceb_inR, ts_inR; cbn [c_as_of c_void_after c_bound c_drift ts_sec ts_nsec]. repeat split; try (apply Z.leb_le; reflexivity); try (apply Z.ltb_lt; reflexivity); try reflexivity; try (intro; discriminate). }
+  rewrite (status_is_decay _ real mono el lt st HR Hr Hm HC). reflexivity.
 Qed.
